@@ -227,8 +227,9 @@ def c05(tier):
         T0 = gen_core.type_for(fmt)
         lc = scen.lossless_class(fmt, T0)
         cls, par = lc if lc else ("noise", 0)
-        N = 45000 // ch
-        S.scn(fmt="0x%x" % fmt, ch=ch, T=T0, N=N, kind="bigreq", nodata=0)
+        N = 45000 // ch if ch < 3 else 3500
+        # (three channels: shorter file, floats logged as dyadics so that reads through every type are compared with the written integers)
+        S.scn(fmt="0x%x" % fmt, ch=ch, T=T0, N=N, kind="bigreq", nodata=0, fmode=1 if ch == 3 else 0)
         S.add("file 1 new", "open 0 vio w 1 %d %d %d" % (fmt, ch, RATE), "write 0 %s f %d gen %s %d %d" % (T0, N, cls, rng.randint(1, 10 ** 6), par), "close 0",
               "open 1 vio r 1 %d %d %d" % (fmt if scen.major(fmt) == scen.RAW else 0, ch, RATE))
         for T in "sifd":
@@ -252,12 +253,16 @@ def c06(tier):
     rng = random.Random(vlib.SEED)
     S = scen.Script()
     chans = (1, 2) if tier == "quick" else (1, 2, 3)
+    ok3 = set(_fmts(exe, tier, (3,))) if tier == "quick" else set()
     for fmt, ch in _fmts(exe, tier, chans):
         B = scen.block_hint(fmt, ch, RATE)
         N = 2 * B + 1 if B > 1 else 97
         Ts = [gen_core.type_for(fmt)] if tier == "quick" else list(dict.fromkeys([gen_core.type_for(fmt), "i", "f"]))
         for T in Ts:
             gen_core.seek_read_scenarios(S, fmt, ch, RATE, N, rng, steps=25 if tier == "quick" else 80, T=T)
+        if ch == 2 and (fmt, 3) in ok3:     # three channels: reads above the staging buffers through a type the codec has to convert
+            for T3 in ("s", "d"):
+                gen_core.seek_read_scenarios(S, fmt, 3, RATE, 900, rng, steps=6, T=T3, cfg={"fmode": 1})
         if B > 1:          # a file that ends exactly on a block boundary
             gen_core.seek_read_scenarios(S, fmt, ch, RATE, 2 * B, rng, steps=10 if tier == "quick" else 40, T=Ts[0])
     # TLC-generated histories (all seek/read sequences over the replay alphabet) on read handles
@@ -799,6 +804,8 @@ def c12(tier):
         gen_env.c12_scenario(S, fmt, ch, RATE, rng, [("chmap", 0, 1)])
         gen_env.c12_scenario(S, fmt, ch, RATE, rng, [("chmap", 1, 1)])
         gen_env.c12_scenario(S, fmt, ch, RATE, rng, [("chmap", 99, 1)])
+        for lk in (2, 3, 4, 5):        # a standard layout whose last entry cannot be stored: refused, or stored and returned unchanged
+            gen_env.c12_scenario(S, fmt, ch, RATE, rng, [("chmap", lk, 1)])
         allitems = [("str", 1, 9), ("str", 3, 12), ("str", 5, 40), ("bext", 10, 300), ("cart", 12, 77), ("cues", 6, 5), ("chmap", 1, 1)]
         for order in (None, "rev", "shuffle"):
             gen_env.c12_scenario(S, fmt, ch, RATE, rng, allitems, order=order)
